@@ -148,7 +148,7 @@ def _bracket(prog, rr, f, cname):
 
 
 # --------------------------------------------------------------------------------------- RS2
-@rule("RS2", ["C01", "C05", "C15", "C02", "C04"], "rand-set merge moves fields, hard, soft and dist data and re-links the field map", engine="XS", floor=2)
+@rule("RS2", ["C01", "C05", "C15", "C02", "C04", "C07", "C08"], "rand-set merge moves fields, hard, soft and dist data and re-links the field map", engine="XS", floor=2)
 def rs2(prog, rr):
     rib = prog.cls("RandInfoBuilder")
     rs = prog.cls("RandSet")
@@ -382,7 +382,7 @@ def rs4(prog, rr):
         for n in walk_local(f.node):
             if isinstance(n, (ast.Assign, ast.AugAssign)):
                 tg = n.targets if isinstance(n, ast.Assign) else [n.target]
-                if any(norm(t) == "self._soft_priority" for t in tg):
+                if any(norm(t) == _soft_attrs(prog)[1] for t in tg):
                     rr.inst("RandInfoBuilder.%s writes _soft_priority: %s" % (f.name, norm(n)))
                     ok = (f.name == "__init__" and isinstance(n, ast.Assign) and isinstance(n.value, ast.Constant) and n.value.value == 0) or \
                          (isinstance(n, ast.AugAssign) and isinstance(n.op, ast.Add) and isinstance(n.value, ast.Constant) and n.value.value > 0)
@@ -393,7 +393,7 @@ def rs4(prog, rr):
     p = vsoft.params[1]
     pw = [n for n in walk_local(vsoft.node) if isinstance(n, (ast.Assign, ast.AugAssign)) and norm(n.targets[0] if isinstance(n, ast.Assign) else n.target) == p + ".priority"]
     rr.inst("RandInfoBuilder.visit_constraint_soft priority writes: %s" % [norm(x) for x in pw])
-    if not pw or not all("self._soft_priority" in norm(x.value) for x in pw):
+    if not pw or not all(_soft_attrs(prog)[1] in norm(x.value) for x in pw):
         rr.finding(vsoft, vsoft.node, "RandInfoBuilder.visit_constraint_soft", "RS4: a soft constraint's priority is not derived from the running "
                    "_soft_priority counter", text="priority source")
     # (4) in RandInfoBuilder.build each pass visits the field models before the inline constraints
@@ -438,14 +438,26 @@ def _order_in(rr, dr, cname):
             nm = call_name(call)
             if nm == "build" and norm(call.func.value) == "RandInfoBuilder":
                 s.seen_build = True
-                for need in ("clear:field_model_l", "clear:constraint_l"):
-                    if need not in st.u:
+                needs = ["clear:" + norm(a) for a in call.args[:2]] if len(call.args) >= 2 else ["clear:field_model_l", "clear:constraint_l"]
+                for need in needs:
+                    if not any(t.startswith("clear:") and s.alias(t[6:]) == s.alias(need[6:]) for t in st.u):
                         rr.finding(dr, call, cname, "RS4: RandInfoBuilder.build is reached on a path where soft priorities were not cleared "
                                    "for every element of %s" % need.split(":")[1], text="build without " + need)
             return [(FALL, st, None)]
     d = D()
     d.loop_tok = {}
     d.seen_build = False
+    # names connected by plain copies (`a = b`) denote the same list
+    parent = {}
+
+    def find(x):
+        while parent.get(x, x) != x:
+            x = parent[x]
+        return x
+    for a in walk_local(dr.node):
+        if isinstance(a, ast.Assign) and len(a.targets) == 1 and isinstance(a.targets[0], ast.Name) and isinstance(a.value, ast.Name):
+            parent[find(a.targets[0].id)] = find(a.value.id)
+    d.alias = find
     for lp in walk_local(dr.node):
         if isinstance(lp, ast.For):
             for stt in lp.body:
@@ -457,6 +469,19 @@ def _order_in(rr, dr, cname):
 
 
 # --------------------------------------------------------------------------------------- RS5
+def _soft_attrs(prog):
+    """names the builder uses today for the guard stack (what visit_constraint_if_else appends to and pops) and for the running
+    soft priority (what visit_constraint_soft increments): -> ("self.<stack>", "self.<counter>")"""
+    rib = prog.cls("RandInfoBuilder")
+    ie = rib.methods["visit_constraint_if_else"]
+    apps = [recv_text(c) for c in walk_local(ie.node) if isinstance(c, ast.Call) and call_name(c) == "append" and (recv_text(c) or "").startswith("self.")]
+    pops = {recv_text(c) for c in walk_local(ie.node) if isinstance(c, ast.Call) and call_name(c) == "pop" and (recv_text(c) or "").startswith("self.")}
+    stack = next((a for a in apps if a in pops), "self._soft_cond_l")
+    vs = rib.methods["visit_constraint_soft"]
+    incs = [norm(a.target) for a in walk_local(vs.node) if isinstance(a, ast.AugAssign) and isinstance(a.op, ast.Add) and norm(a.target).startswith("self.")]
+    return stack, (incs[0] if incs else "self._soft_priority")
+
+
 def _guard_kind(prog, cls, e, cond, depth=1, env=None):
     """polarity of a guard expression over `cond`: 'cond' (holds when cond is true), 'not-cond', or 'other:<text>'"""
     env = env or {}
@@ -503,6 +528,7 @@ def _guard_kind(prog, cls, e, cond, depth=1, env=None):
 @rule("RS5", ["C05"], "soft guard stack balanced; true arm guarded by the condition, else arm by its negation", engine="SAI", floor=2)
 def rs5(prog, rr):
     rib = prog.cls("RandInfoBuilder")
+    GST = _soft_attrs(prog)[0]
     for h in ("visit_constraint_if_else", "visit_constraint_implies"):
         f = prog.method("RandInfoBuilder", h)
         p = f.params[1]
@@ -514,10 +540,10 @@ def rs5(prog, rr):
             def on_call(s, st, call, ctx):
                 nm, rv = call_name(call), recv_text(call)
                 d, top = st.u
-                if rv == "self._soft_cond_l" and nm == "append":
+                if rv == GST and nm == "append":
                     top = _guard_kind(prog, rib, call.args[0], p + ".cond")
                     return [(FALL, st._replace(u=(d + 1, top)), None)]
-                if rv == "self._soft_cond_l" and nm == "pop":
+                if rv == GST and nm == "pop":
                     return [(FALL, st._replace(u=(d - 1, "none")), None)]
                 if nm == "accept":
                     tgt = norm(call.func.value)
@@ -531,7 +557,7 @@ def rs5(prog, rr):
                 return [(FALL, st, None)]
 
             def on_assign(s, st, stmt):
-                if isinstance(stmt, ast.Assign) and any(norm(t) == "self._soft_cond_l[-1]" for t in stmt.targets):
+                if isinstance(stmt, ast.Assign) and any(norm(t) == GST + "[-1]" for t in stmt.targets):
                     return st._replace(u=(st.u[0], _guard_kind(prog, rib, stmt.value, p + ".cond")))
                 return st
         outs = Interp(D(), func=f).run(f.node)
@@ -780,7 +806,17 @@ def _expand_roles(rr, exp, vsf, env, lhs, depth):
     def ev(node, st, dom):
         nonlocal visited
         if isinstance(node, ast.Call) and call_name(node) == "accept":
-            tgt = norm(node.func.value)
+            rv = node.func.value
+            if isinstance(rv, ast.IfExp) and norm(rv.test).replace(" ", "") in ("self.lhs", "notself.lhs"):
+                pick_body = lhs if norm(rv.test).replace(" ", "") == "self.lhs" else not lhs
+                rv = rv.body if pick_body else rv.orelse
+            elif isinstance(rv, ast.Name):
+                # a local bound once to such a choice: root = a if self.lhs else b
+                ds = [a.value for a in walk_local(exp.node) if isinstance(a, ast.Assign) and len(a.targets) == 1 and norm(a.targets[0]) == rv.id]
+                if len(ds) == 1 and isinstance(ds[0], ast.IfExp) and norm(ds[0].test).replace(" ", "") in ("self.lhs", "notself.lhs"):
+                    pick_body = lhs if norm(ds[0].test).replace(" ", "") == "self.lhs" else not lhs
+                    rv = ds[0].body if pick_body else ds[0].orelse
+            tgt = norm(rv)
             visited = env.get(tgt, attr.get(tgt))
     specialise(exp, None, None, None, on_event=ev, assume={"self.lhs": lhs})
     if visited is None:
